@@ -209,3 +209,75 @@ Definition parse_set_header_e (s : str) : res (list str) := Ok (parse_set_header
 (* well-typed outcome: a value, or one of werkzeug's HTTP exceptions *)
 Definition well_typed {A : Type} (r : res A) : Prop :=
   match r with Ok _ => True | Err e => is_http_error e = true end.
+
+(* ================================================================== Accept headers (the loop of http.parse_accept_header) *)
+
+(* _q_value_re.fullmatch(q_str): (negative, integer digits, fraction digits) *)
+Definition q_parse (s : str) : option (bool * str * str) :=
+  let '(neg, body) := match s with c :: r => if c =? DASH then (true, r) else (false, s) | [] => (false, s) end in
+  let ip := take_while is_digit body in
+  match ip with
+  | [] => None
+  | _ =>
+    match drop_while is_digit body with
+    | [] => Some (neg, ip, [])
+    | c :: r =>
+      if c =? 46 then
+        match r with
+        | [] => None
+        | _ => if forallb is_digit r then Some (neg, ip, r) else None
+        end
+      else None
+    end
+  end.
+
+Definition digits_value (ds : str) : Z :=
+  match uint_of_digits ds with Some u => Z.of_N (N.of_uint u) | None => 0%Z end.
+
+(* float(q_str) < 0 or float(q_str) > 1, decided exactly: the double nearest to a decimal v exceeds 1 iff
+   v > 1 + 2^-53 and is a non-zero negative iff |v| > 2^-1075 (ties go to the even neighbours 1.0 and 0.0) *)
+Definition q_out_of_range (q : bool * str * str) : bool :=
+  let '(neg, ip, fp) := q in
+  let v := digits_value (ip ++ fp) in
+  let scale := (10 ^ Z.of_nat (length fp))%Z in
+  if neg then (scale <? v * 2 ^ 1075)%Z
+  else (scale <? (v - scale) * 2 ^ 53)%Z.
+
+Definition s_q : str := [113].
+
+(* one item of the list: None = skipped; Some (item text, q text or None for the default 1) *)
+Definition accept_item (item : str) : res (option (str * option str)) :=
+  do '(value, options) <- parse_options_header item;
+  match dict_get s_q options with
+  | Some qv =>
+    let q_str := py_strip qv in
+    let options := dict_del s_q options in
+    match q_parse q_str with
+    | None => Ok None
+    | Some q =>
+      if q_out_of_range q then Ok None
+      else
+        match options with
+        | [] => Ok (Some (value, Some q_str))
+        | _ => do t <- dump_options_header value options; Ok (Some (t, Some q_str))
+        end
+    end
+  | None =>
+    match options with
+    | [] => Ok (Some (value, None))
+    | _ => do t <- dump_options_header value options; Ok (Some (t, None))
+    end
+  end.
+
+Fixpoint accept_items (items : list str) : res (list (str * option str)) :=
+  match items with
+  | [] => Ok []
+  | it :: r =>
+    do o <- accept_item it;
+    do l <- accept_items r;
+    Ok (match o with Some x => x :: l | None => l end)
+  end.
+
+(* http.parse_accept_header(value) before cls(result) sorts it *)
+Definition parse_accept_items (value : str) : res (list (str * option str)) :=
+  match value with [] => Ok [] | _ => accept_items (parse_list_header value) end.
